@@ -143,12 +143,14 @@ type c19Node struct {
 	dir      bool
 	children map[string]*c19Node
 	data     []byte
+	// mode of a directory once Chmod has set it (0: never set, not compared)
+	mode os.FileMode
 }
 
 func c19NewDir() *c19Node { return &c19Node{dir: true, children: map[string]*c19Node{}} }
 
 func (n *c19Node) clone() *c19Node {
-	c := &c19Node{dir: n.dir, data: append([]byte(nil), n.data...)}
+	c := &c19Node{dir: n.dir, data: append([]byte(nil), n.data...), mode: n.mode}
 	if n.dir {
 		c.children = map[string]*c19Node{}
 		for k, v := range n.children {
@@ -181,12 +183,20 @@ func (n *c19Node) dump(prefix string, out *[]string) {
 	for _, k := range names {
 		ch := n.children[k]
 		if ch.dir {
-			*out = append(*out, prefix+"/"+k+"/")
+			*out = append(*out, prefix+"/"+k+"/"+c19ModeSuffix(ch.mode))
 			ch.dump(prefix+"/"+k, out)
 		} else {
 			*out = append(*out, fmt.Sprintf("%s/%s=%q", prefix, k, ch.data))
 		}
 	}
+}
+
+// c19ModeSuffix renders a directory's permission bits when they have been set.
+func c19ModeSuffix(m os.FileMode) string {
+	if m&0xFFF == 0 {
+		return ""
+	}
+	return fmt.Sprintf(" mode=%o", m&0xFFF)
 }
 
 var errC19Model = fmt.Errorf("model: operation is not possible")
@@ -251,8 +261,12 @@ func (root *c19Node) apply(op c19Op, payload []byte) error {
 		delete(parent.children, name)
 		return nil
 	case "chmod", "touch", "flush", "lookup":
-		if root.walk(op.Path) == nil {
+		nd := root.walk(op.Path)
+		if nd == nil {
 			return errC19Model
+		}
+		if op.Kind == "chmod" && nd.dir && nd != root {
+			nd.mode = 0o640
 		}
 		return nil
 	case "list":
@@ -318,7 +332,11 @@ func c19DumpMFS(ctx context.Context, d *Directory, prefix string, out *[]string)
 		}
 		switch c := ch.(type) {
 		case *Directory:
-			*out = append(*out, prefix+"/"+e.Name+"/")
+			dm, err := c.Mode()
+			if err != nil {
+				return err
+			}
+			*out = append(*out, prefix+"/"+e.Name+"/"+c19ModeSuffix(dm))
 			if err := c19DumpMFS(ctx, c, prefix+"/"+e.Name, out); err != nil {
 				return err
 			}
@@ -354,13 +372,15 @@ func c19DumpDAG(ctx context.Context, ds ipld.DAGService, nd ipld.Node, prefix st
 			return fmt.Errorf("%s/%s: %w", prefix, l.Name, err)
 		}
 		isDir := false
+		var dirMode os.FileMode
 		if pn, ok := ch.(*dag.ProtoNode); ok {
 			if fsn, err := ft.FSNodeFromBytes(pn.Data()); err == nil && fsn.IsDir() {
 				isDir = true
+				dirMode = fsn.Mode()
 			}
 		}
 		if isDir {
-			*out = append(*out, prefix+"/"+l.Name+"/")
+			*out = append(*out, prefix+"/"+l.Name+"/"+c19ModeSuffix(dirMode))
 			if err := c19DumpDAG(ctx, ds, ch, prefix+"/"+l.Name, out); err != nil {
 				return err
 			}
